@@ -40,10 +40,13 @@
      transfer.  [wf] therefore also carries C04's trunc_unparsable, which for group_in reads
      "the empty byte string does not parse as a listing".
 
-   Deviation from DESIGN: C18_resolve is over the hand-written [getitem] (line-by-line model of
-   __getitem__, tied by a dense differential check), not over a translator unit. *)
+   C18_resolve is over the GENERATED __getitem__ (Gen/StorageMap.v, emitted on every run by
+   translator/storagemap.py from index/index.py: the prefix test, the sort key and direction, the
+   guarded per-role assignments, the break test and the returned StorageInfo come from the source;
+   any other shape fails closed); the dense differential check of harness/props/c18.py validates
+   the translation. *)
 From Coq Require Import NArith List Bool.
-From DvcData Require Import Base.Val Model.Transfer Model.PushFetch Proofs.TransferBase Proofs.TransferStatus Proofs.TransferLoop Proofs.TransferProofs Proofs.PushFetchResolve Proofs.PushFetchProofs Proofs.PushFetchExamples.
+From DvcData Require Import Base.Val Model.Transfer Gen.StorageMap Model.PushFetch Proofs.TransferBase Proofs.TransferStatus Proofs.TransferLoop Proofs.TransferProofs Proofs.PushFetchResolve Proofs.PushFetchProofs Proofs.PushFetchExamples.
 Import ListNotations.
 Open Scope N_scope.
 
